@@ -7,6 +7,7 @@ ENGINES = {
     "aesdiff": dict(src=["harness/aesdiff.c", "harness/aesfam.c"]),
     "mhroll": dict(src=["harness/mhroll.c"]),
     "bounds": dict(src=["harness/bounds.c", "harness/aesfam.c"]),
+    "params": dict(src=["harness/params.c", "harness/aesfam.c", "harness/hashalgs.c"]),
     "trampeng": dict(src=["harness/trampeng.c", "harness/tramp.c", "harness/tramp.S", "harness/aesfam.c", "harness/hashalgs.c"], ldflags=["-rdynamic"]),
 }
 
@@ -172,6 +173,46 @@ def abi_post(results, libinfos, counts):
     return problems, info
 
 
+def big_tasks(tier):
+    tasks = []
+    fams = dict(sha1=["base", "sse", "avx", "avx2", "avx512", "sse_ni", "avx512_ni"], sha256=["base", "sse", "avx", "avx2", "avx512", "sse_ni", "avx512_ni"],
+                sha512=["base", "sse", "avx", "avx2", "avx512", "sb_sse4"], md5=["base", "sse", "avx", "avx2", "avx512"], sm3=["base", "avx2", "avx512"])
+    for alg in HASH_ALGS:
+        if tier == "quick":
+            tasks.append(dict(engine="hashmb", variant="plain", timeout=1500, args=["--prop", "C15", "--mode", "big", "--alg", alg, "--thr", "29", "--watchdog", 1400]))
+            tasks.append(dict(engine="hashmb", variant="plain", timeout=1500, args=["--prop", "C15", "--mode", "big", "--alg", alg, "--fam", "avx512", "--thr", "32", "--watchdog", 1400]))
+        else:
+            for f in fams[alg]:
+                tasks.append(dict(engine="hashmb", variant="plain", timeout=7000, args=["--prop", "C15", "--mode", "big", "--alg", alg, "--fam", f, "--thr", "29,32,33", "--rounds", 2, "--watchdog", 6900]))
+        # small histories: total_length at every hand-back
+        tasks.append(dict(engine="hashmb", variant="plain", args=["--prop", "C15", "--alg", alg, "--route", "fam,isal", "--inject", 4, "--from", 0, "--count", 300 if tier == "quick" else 5000]))
+    return tasks
+
+
+def isal_cover_post(results, libinfos, counts):
+    """every exported isal_ symbol of the build must have a descriptor in the engine"""
+    import subprocess, os
+    called = set()
+    for r in results:
+        for l in r["lines"]:
+            if l.get("t") == "called":
+                called.update(l["names"])
+    problems, info = [], {}
+    for variant, li in libinfos.items():
+        out = subprocess.run(["nm", os.path.join(li["dir"], "isa-l_crypto.a")], capture_output=True, text=True).stdout
+        syms = set(ln.split()[2] for ln in out.splitlines() if len(ln.split()) == 3 and ln.split()[1] == "T" and ln.split()[2].startswith("isal_"))
+        info["isal_entry_points_" + variant] = len(syms)
+        miss = sorted(syms - called)
+        if miss:
+            problems.append("exported isal_ entry point(s) without a descriptor in the %s build: %s" % (variant, " ".join(miss)))
+    return problems, info
+
+
+def params_tasks(tier):
+    n = 16 if tier == "quick" else 400
+    return [dict(engine="params", variant=v, args=["--prop", "C16", "--from", f, "--count", c]) for v in ("plain", "asan") for (f, c) in split(n if v == "plain" else max(4, n // 4), 8)]
+
+
 MH_FAMS = ["base", "sse", "avx", "avx2", "avx512"]
 GCM_FAMS = ["sse", "avx_gen2", "avx_gen4", "vaes_avx512"]
 AES_TRUST = TRUST + ["OpenSSL 3.0 EVP as second oracle for inputs longer than 4-8 KiB; ref, OpenSSL and published vectors are cross-checked at start-up"]
@@ -313,5 +354,29 @@ CHECKS = {
         assumptions=TRUST + ["a dependence on hidden state that happens not to change any observable for the three patterns is missed",
                              "internal assembly entries receive zero-extended 32-bit arguments, as the library's own compiled C passes them"],
         tasks=lambda tier: tramp_tasks("C20", "hidden", TRAMP_GROUPS, 120, 4000)(tier) + hash_tasks("C20", 300, 20000, 6, extra=["--pair", 1], parts_q=1, parts_t=3)(tier),
+    ),
+    "C15": dict(
+        level="exploration", evaluations=["big_handbacks", "completes"], must_observe=["big_jobs_completed", "big_jobs_2^29", "big_jobs_2^32", "big_handbacks", "big_single_submits_ge_2^31", "big_zero_length_updates"],
+        rule=("per (algorithm, family) a manager is filled with lanes+1 jobs that all hash the same periodic multi-GiB stream (64 MiB memfd mirrored back to back) with different "
+              "segmentations: a segment boundary at the threshold, 1/63/64 bytes below or above it, zero-length UPDATEs exactly at it, single submits of 2^32-1, 2^32-64, 2^31 bytes, "
+              "random further cuts, final totals with residues 0..3 blocks; after every hand-back total_length is compared with the sum of accepted segment lengths and each completed "
+              "digest with an OpenSSL streaming pass over the same bytes (snapshots at each total; cross-validated with the reference on a prefix). quick: threshold 2^29 on all 28 pairs and "
+              "2^32 on the avx512 family of each algorithm; thorough: 2^29, 2^32 and 2^32+2^29 on all 28 pairs, two rounds. Small random histories add the total_length check at every hand-back. "
+              "distinct_nontrivial = distinct (family, threshold, running total mod 2 blocks, flags, above/below threshold)"),
+        assumptions=TRUST + ["OpenSSL 3.0 EVP digests as oracle for multi-GiB streams"],
+        tasks=big_tasks,
+    ),
+    "C16": dict(
+        level="exploration", evaluations=["null_subset_calls", "bad_scalar_calls", "valid_calls", "legacy_comparisons"],
+        must_observe=["null_subset_calls", "bad_scalar_calls", "valid_calls", "legacy_comparisons", "entries_described"],
+        rule=("for each of the 69 argument-taking isal_ entry points (table checked against nm of the build; the 3 others take no arguments): (a) every non-empty subset of its pointer "
+              "arguments is NULL while every other pointer aims into a PROT_NONE region, scalars chosen so that no NULL is permitted: a fault, a zero return or a code that is not the "
+              "documented code of a missing argument is a violation (exhaustive over the subsets); (b) each out-of-domain scalar (GCM len > MAX, tag length not 8/12/16, XTS len <16 or >2^24, CBC len "
+              "not a multiple of 16, window 0/49/64/2^32-1, hash flags outside 0..3) with all pointers valid: the documented code must come back and every argument object must be "
+              "byte-identical afterwards (the context error field of a rejected hash submit is the documented channel and exempt); (c) in-domain variants incl. the permitted NULLs "
+              "(GCM in/out with len 0, AAD with aad_len 0, hash buffer with FIRST/LAST or len 0 for SM3) must return 0; (d) legacy entry points vs isal_ counterparts on random valid "
+              "inputs (GCM pre/one-shot/nt/stream, XTS raw/expanded, CBC, key expansion, aes_cbc_precomp, 5 hash managers, mh_sha1/mh_sha256/murmur incl. *_base, rolling, mask_gen) byte for byte"),
+        assumptions=TRUST + ["documented codes are those the sources/param tests assign to each argument; when several arguments are bad any of their codes is accepted"],
+        tasks=params_tasks, post=isal_cover_post, exhaustive_key="null_subset_calls", exhaustive_over="the NULL subsets of the pointer arguments of every isal_ entry point (part a)",
     ),
 }
